@@ -509,12 +509,12 @@ package header
 //@   ensures (result == 0) == (a == 0 && b == 0)
 //@   apply oc16_period(uint64(result), 1)
 
+// (For buffers above 64 KiB the 32-bit accumulator may wrap: nothing is claimed then.)
 //@ func Checksum props C15 C06
-//@   requires len(buf) <= 65536
-//@   ensures oc16(uint64(result)) == oc16(uint64(initial) + wsum16(buf, 0, len(buf)))
-//@   ensures (result == 0) == (uint64(initial) + wsum16(buf, 0, len(buf)) == 0)
+//@   ensures implies(len(buf) <= 65536, oc16(uint64(result)) == oc16(uint64(initial) + wsum16(buf, 0, len(buf))))
+//@   ensures implies(len(buf) <= 65536, (result == 0) == (uint64(initial) + wsum16(buf, 0, len(buf)) == 0))
 //@   loop 1 invariant 0 <= i && i <= l && i & 1 == 0 && l & 1 == 0 && l <= len(buf) && len(buf) - l <= 1
-//@   loop 1 invariant uint64(v) == uint64(initial) + wsum16(buf, l, len(buf)) + wsum16(buf, 0, i)
+//@   loop 1 invariant implies(len(buf) <= 65536, uint64(v) == uint64(initial) + wsum16(buf, l, len(buf)) + wsum16(buf, 0, i))
 //@   apply fold32(v)
 
 // PseudoHeaderChecksum: sum of both addresses and the protocol number (the length is added
